@@ -576,8 +576,12 @@ def doDelGlyph (T : Tables) (w : World V) (name : String) : World V × Res :=
   match AL.get? w.glyphs name with
   | none => (w, .err "KeyError")
   | some g =>
-    -- Layer.GlyphWillBeDeleted, before anything is removed
-    let w1 := switchAndPost T w (watchesBase name) .layer "layerGlyphWillBeDeletedNotificationCallback"
+    -- Layer.GlyphWillBeDeleted (before anything is removed): the components that reference the glyph switch to
+    -- watching the layer; Layer.GlyphDeleted (after the removal): they post Component.BaseGlyphDataChanged.
+    -- The model does both here, before the removal: the evictions walk upwards from the referencing components and
+    -- never through the deleted glyph (component graph acyclic: `Dom`), and a dropped cache entry holds no value,
+    -- so the state after the operation is the same either way.
+    let w1 := switchAndPost T w (watchesBase name) .layer "layerGlyphDeletedNotificationCallback"
     -- _deleteGlyph: the glyph and everything below it stop observing (their caches are dropped)
     ((goneObjs name g).foldl dropCache { w1 with glyphs := eraseAll w1.glyphs name }, .ok)
 
